@@ -38,7 +38,7 @@ CLAIMED = {
             "All histories of <= 3 (thorough 4) rounds over 12 callback behaviours (append, Reset+append, in-place overwrite, nil unchanged, io.EOF with / without rows, wrapped io.EOF, error, new column objects put into the input slots with rows / with a row + io.EOF / empty + io.EOF) x initial rows {0, 2} (and a 30000-row first block for histories of <= 2 rounds) x 6 column kinds (incl. zero-copy UInt64 / FixedString, LowCardinality, Array, inferred Enum) alone or with a second column x {plain, LZ4}; thorough additionally explores all schedules with <= 1 preemption while the server sends Progress. The server must receive exactly the model's snapshots, in order, then one empty block; callback errors must stop sending and surface from Do.",
             "Trusted: refcol decoding of the client's blocks. States = histories (each history is a distinct model state sequence)."),
     "C13": ("fault_enumeration", "DESIGN.md §4 C13",
-            "exhaustive enumeration of (client revision, server revision) pairs over the threshold-neighbour set and of handshake fault responses (every truncation point of the hello, exception, wrong packet, garbage, cut, silence, late hello), each executed on the real Connect / Dial over the simulated connection with the fake clock",
+            "exhaustive enumeration of (client revision, server revision) pairs over the threshold-neighbour set and of handshake fault responses (every truncation point of the hello, exception, wrong packet, garbage, cut, silence, answers stalled in the middle with and without a read time-out, late hello), each executed on the real Connect / Dial over the simulated connection with the fake clock",
             "~2.6k revision pairs with a well-formed hello written by the reference peer with the fields of min(client, server): ServerInfo, addendum presence, and a follow-up query parsed / answered at min(client, server); fault responses on a diagonal of pairs through Connect and Dial: error (carrying the exception), no client, dialled connection closed; hello delayed beyond the read timeout but within the handshake timeout (also arriving in the last window and at the last moment of it) must be accepted.",
             "Trusted: refwire hello model (fields gated on min of both revisions, as real servers do)."),
     "C01": ("exploration", "DESIGN.md §4 C01, §2 E3/E4/E5",
